@@ -67,7 +67,9 @@ W_FLAT = {
     "knobs": {"K1": (P("a"), (1, 2), (P("b"), P("c")))},
 }
 
-WORLDS = {w["name"]: w for w in (W_NEST, W_NEST_4, W_NEST_SMALL, W_MIX, W_FLAT)}
+W_MIX_ATTR = dict(W_MIX, name="W-mix-attr", refattr=True)
+
+WORLDS = {w["name"]: w for w in (W_NEST, W_NEST_4, W_NEST_SMALL, W_MIX, W_FLAT, W_MIX_ATTR)}
 
 
 def tmpl(name, args):
@@ -103,14 +105,20 @@ def tmpl(name, args):
         return ("cmp", "eq", X, ("lit", 3))
     if name == "floor":
         return ("bi", "floor", ("bin", "truediv", X, ("lit", 4)), ())
+    if name == "abs2":   # a builtin node as the FIRST operand of an enclosing operator
+        return ("bin", "mul", ("bi", "abs", X, ()), ("lit", 2))
+    if name == "addr":   # right-nested chain of one operator: X + (Y + 0.3)  (floating-point addition is not associative)
+        return ("bin", "add", X, ("bin", "add", Y, ("lit", 0.3)))
+    if name == "mulr":
+        return ("bin", "mul", X, ("bin", "mul", Y, ("lit", 0.7)))
     if name == "rpow":
         return ("bin", "pow", ("lit", -2), ("bin", "mod", X, ("lit", 3)))
     raise ValueError(name)
 
 
-UNARY = ("mul2", "inc", "neg", "dbl", "pick", "abs", "round1", "lt", "eqx", "floor", "rpow")
+UNARY = ("mul2", "inc", "neg", "dbl", "pick", "abs", "round1", "lt", "eqx", "floor", "rpow", "abs2")
 BINARY_SYM = ("add", "mul")
-BINARY_ASYM = ("sub",)
+BINARY_ASYM = ("sub", "addr", "mulr")
 
 
 def build_universe(world, cfg):
@@ -277,13 +285,53 @@ def index_fingerprint(m):
     return out
 
 
-def canon(w, extra=None):
+_KNOWN_MGR = {"tasks", "containers", "rdeps", "rtasks", "deptasks", "tartasks", "_tree_frozen"}
+_KNOWN_TASK = {"taskid", "targets", "dependencies", "expr", "source", "weights", "prev_value", "_applied", "action"}
+_ADDR = __import__("re").compile(r" at 0x[0-9a-fA-F]+")
+
+
+def _brief(v, depth=0):
+    """deterministic description of an attribute value the harness does not know about"""
+    if isinstance(v, dict):
+        return sorted((_brief(k, depth + 1), _brief(x, depth + 1)) for k, x in list(v.items())[:200])
+    if isinstance(v, (list, tuple, set, frozenset)):
+        items = [_brief(x, depth + 1) for x in list(v)[:200]]
+        return sorted(items, key=repr) if isinstance(v, (set, frozenset)) else items
+    try:
+        return _ADDR.sub("", repr(v))[:300]
+    except Exception:  # noqa
+        return type(v).__name__
+
+
+def hidden_state(m):
+    """Attributes of the manager and of its tasks that the harness does not model (a cache or flag added by a change to the
+    library).  They are part of the canonical state so that two histories are never merged while such state differs."""
+    out = []
+    for k in sorted(getattr(m, "__dict__", {})):
+        if k not in _KNOWN_MGR:
+            out.append((k, _brief(m.__dict__[k])))
+    for tid, t in m.tasks.items():
+        d = getattr(t, "__dict__", None)
+        if d:
+            for k in sorted(d):
+                if k not in _KNOWN_TASK:
+                    out.append((str(tid), k, _brief(d[k])))
+    return out
+
+
+def canon_obs(w, extra=None):
+    """observable concrete state (no unmodelled attributes): used by oracles that compare two managers, so that a semantically
+    transparent cache or counter added to the library can never raise an alarm"""
+    return canon(w, extra, hidden=False)
+
+
+def canon(w, extra=None, hidden=True):
     m = w.m
     tasks = []
     for k, t in m.tasks.items():
         tasks.append((hash(k), type(t).__name__, hash(getattr(t, "expr", None)),
-                      repr(getattr(t, "prev_value", None))))
-    parts = (repr(w.contents()), tasks, index_fingerprint(m), m._tree_frozen, extra)
+                      repr(getattr(t, "prev_value", None)), repr(getattr(t, "_applied", None))))
+    parts = (repr(w.contents()), tasks, index_fingerprint(m), m._tree_frozen, extra, hidden_state(m) if hidden else None)
     return hashlib.blake2b(repr(parts).encode(), digest_size=12).digest()
 
 
